@@ -184,6 +184,9 @@ def doc_term(case, written):
 # hand-made documents that run first: a path over one segment (no link needed), several paths over one link, a
 # link given twice in complement forms, ordered groups of one item, nested sets
 CORPUS = [
+    # comments without text, of blanks only, and between records of either version
+    (['#', 'S\ta\t*', '# ', '#  x ', '#'], 'gfa1'),
+    (['H\tVN:Z:2.0', '#', 'S\ta\t10\t*', '#\t', '# #'], 'gfa2'),
     # custom records made of tags only, of one positional field, and of fields that only resemble tags
     (['H\tVN:Z:2.0', 'S\ta\t10\t*', 'Y\txx:i:1\tyy:Z:abc', 'Z\tzz:i:5', 'W\tfield\tab:Z:x', 'V\tx1:i:1\tnot a tag\tab:f:1.5', 'T'], 'gfa2'),
     (['S\ta\t*', 'P\tp\ta+\t*'], 'gfa1'),
